@@ -46,7 +46,7 @@ RULE = ("generated pipelines (vlib.gen, fault_bias=0, initial data NoData) that 
         "pipeline has >= 3 nodes")
 SHARDS = {"quick": 1, "thorough": 1}       # parallelism is over (pipeline, mode) subprocesses, see PARALLEL
 PARALLEL = min(16, os.cpu_count() or 4)
-MODES = ["reused", "fresh", "runspace_cli", "queue_worker"]
+MODES = ["reused", "fresh", "runspace_cli", "queue_worker", "relaunch_cli"]
 N_PIPELINES = {"quick": 2, "thorough": 12}
 POINTS = {"quick": [50, 150, 450], "thorough": [50, 150, 450, 1350]}
 EXTEND_MAX_OBJECTS = 400_000     # thorough: go on to the 4th point only if the heap at the 3rd is below this (a count)
